@@ -483,7 +483,8 @@ fn reduced_frame_faults(d: &DmgImage, f: &FrameInfo) -> Vec<(Patch, String)> {
     let bytes = &d.image[&f.file];
     let mut v: Vec<(Patch, String)> = vec![];
     let t = bytes[f.offset + 6];
-    for nt in 1u8..=4 {
+    // each other valid frame type, and two invalid ones (the whole block is then dropped)
+    for nt in [1u8, 2, 3, 4, 0, 0xFF] {
         if nt != t {
             v.push((vec![(f.file.clone(), f.offset + 6, vec![nt])], format!("type {}->{} @{}+{}", t, nt, f.file, f.offset)));
         }
@@ -552,6 +553,7 @@ pub fn c09_leaf(env: &mut Env, leaf: &Leaf) {
     env.stats.traces += 1;
     let dir = env.scratch2.path.clone();
     env.stats.sample(|| json!({"engine": "damage-frame", "seed": leaf.seed.name, "ops": leaf.ops.iter().map(|o| o.short()).collect::<Vec<_>>(), "wal_files": d.image.len(), "frames": d.frames.iter().map(|f| format!("{}@{}+{} by op {}", f.file, f.offset, f.len, f.op)).collect::<Vec<_>>()}));
+    let mut cont_done: BTreeSet<(String, usize, String)> = BTreeSet::new();
     for f in &d.frames {
         let lost: Vec<(String, u64, Vec<u8>)> = d.op_records.get(&f.op).cloned().unwrap_or_default();
         for (patch, descr) in frame_faults(&d, f) {
@@ -602,6 +604,51 @@ pub fn c09_leaf(env: &mut Env, leaf: &Leaf) {
             }
             if let Some(what) = bad {
                 env.stats.violation(Violation { property: "C09".into(), signature: "loss-beyond-damaged-entry".into(), what: format!("damage {} hits the entry written by op {} {}: {}", descr, f.op, d.cops[f.op].to_json(), what), case: case_json(leaf, descr) });
+                continue;
+            }
+            // The damaged frame stays in the file: appends made after this recovery were not hit
+            // either, and must be there - together with everything recovered now - after the
+            // next restart. Once per (frame, kind of alteration).
+            let kind = format!("{}/{}", descr["kind"].as_str().unwrap_or(""), descr["part"].as_str().unwrap_or(""));
+            if !cont_done.insert((f.file.clone(), f.offset, kind)) {
+                continue;
+            }
+            env.stats.count("damage_then_appends_then_restart", 1);
+            env.stats.evaluations += 1;
+            env.stats.transitions += 3;
+            let queues: Vec<String> = obs.keys().cloned().collect();
+            let r = guarded(|| -> Option<(Obs, Vec<(String, u64, Vec<u8>)>)> {
+                set_image(&dir, &img);
+                reset_hooks(0, false);
+                let mut log = open_log(&dir, PolicyCfg::Default).ok()?;
+                let mut added = vec![];
+                for (k, q) in queues.iter().enumerate() {
+                    let payload = crate::ops::payload(8000 + k as u32, 3 + k);
+                    let out = log.append_record(q, None, &payload[..]).ok()?;
+                    added.push((q.clone(), out.last_position?, payload.to_vec()));
+                }
+                drop(log);
+                let log = open_log(&dir, PolicyCfg::Default).ok()?;
+                Some((observe(&log), added))
+            });
+            match r {
+                Ok(Some((obs2, added))) => {
+                    let mut want = obs.clone();
+                    for (q, p, b) in &added {
+                        let e = want.get_mut(q).unwrap();
+                        e.recs.push((*p, b.clone()));
+                        e.last_pos = Some(*p);
+                    }
+                    if obs2 != want {
+                        env.stats.violation(Violation { property: "C09".into(), signature: "loss-after-appends-and-restart".into(), what: format!("damage {}: open succeeded and returned {}; after one append per queue and a restart the log returns {} instead of {}", descr, obs_summary(&obs), obs_summary(&obs2), obs_summary(&want)), case: case_json(leaf, descr) });
+                    }
+                }
+                Ok(None) => {
+                    env.stats.violation(Violation { property: "C09".into(), signature: "unusable-after-frame-damage".into(), what: format!("damage {}: open succeeded, but an append or the following restart failed", descr), case: case_json(leaf, descr) });
+                }
+                Err(p) => {
+                    env.stats.violation(Violation { property: "C09".into(), signature: "panic-after-frame-damage".into(), what: format!("damage {}: {}", descr, p), case: case_json(leaf, descr) });
+                }
             }
         }
     }
